@@ -22,8 +22,8 @@ claimed = {
    note='The fault space is enumerated exhaustively for the 11 fixed probe programs only; other programs are not covered. Trusted: the fresh interpreter as reference. Side effects of aborted code are excluded by construction of the battery.',
    technique='deterministic simulation: exhaustive single (and paired) panic-point enumeration through the statement seam + battery vs fresh interpreter'),
  'C13': dict(level='fault_enumeration', design='3.5',
-   text='Enumerated interrupt delivery points: for 8 loop shapes Interp.Interrupt is delivered before every executed statement (from the evaluating goroutine, from another goroutine, doubled, from inside a compiled call, with Ctrl+C-enters-debugger, between evaluations). The executor must take the interrupt within 64 executed statements (else the seam aborts the run and reports it), the evaluation must end with the interrupt panic (or enter the debugger), the next evaluation must not see a stale flag, and the C12 battery must equal a fresh interpreter.',
-   note='Runs without the race detector (the async flag store is an intentional benign race). Bound of 64 statements is a budget from the property text. Fixed loop shapes only.',
+   text='Enumerated interrupt delivery points: for 10 interrupt targets (loop shapes, recursion, a loop run by a closure created on another goroutine, a loop forwarding the results of a compiled function) Interp.Interrupt is delivered before every executed statement (from the evaluating goroutine, from another goroutine, doubled, from inside a compiled call, with Ctrl+C-enters-debugger, between evaluations). The executor must take the interrupt within 64 executed statements (else the seam aborts the run and reports it), the evaluation must end with the interrupt panic (or enter the debugger), the next evaluation must not see a stale flag, and the C12 battery must equal a fresh interpreter.',
+   note='Runs without the race detector (the async flag store is an intentional benign race). Bound of 64 statements is a budget from the property text. Fixed targets only.',
    technique='deterministic simulation: exhaustive interrupt-point enumeration through the statement seam + bounded-progress monitor + battery vs fresh interpreter'),
  'C14': dict(level='exploration', design='3.12',
    text='Partial: decides pointer validity / aliasing across growth of the global slot arrays and in-order visibility. The growth chunk (16 values / 1024 integer slots as shipped: large enough that the reallocation path practically never runs) is a buggified tuning knob: per run it is replaced by 0/1/2/16 and 0/1/3/8, one run in 40 replays the shipped configuration with more than 1024 integer declarations. Seeded REPL histories (one top-level statement per evaluation: declarations of integer-slot and boxed kinds, address-taking, closures and functions capturing globals, writes directly / through pointers / through closures, bursts of further declarations, parallel short re-declarations, pointer-receiver method calls on globals of named numeric types, a switch as the very first evaluation, read-backs) are checked step by step against a sequential store model (cells, pointers and closures as references to cells); any internal error is a violation.',
@@ -34,12 +34,12 @@ claimed = {
    note='Free names are known by construction of the generator; no second free-variable analysis is trusted. Multi-name var specs with explicit types, field-name / literal-key / label decoys are generated; iota groups and methods are not. For type cycles only determinism and ordering constraints are checked.',
    technique='deterministic simulation: build-time seam over map iteration order (overlay rewrite) + seeded iteration schedules + reference order known by construction'),
  'C19': dict(level='exploration', design='3.9',
-   text='A second interactive party is simulated: at every debugger stop a simulated user draws the next command (step/next/finish/continue and abbreviations, empty line = repeat, print, vars, backtrace, unknown command, end of input) from the choice list, through (A) the real fast/debug.Debugger reading a simulated command stream and writing to a captured Stdout or (B) a direct fast.Debugger implementation. The statement seam records every executed statement (call depth, line) of the same run as ground truth; a stop-rule model replays stops, commands and statements in order and must agree; the program\'s results must equal the undebugged run and the native twin (transparency); runaway sessions are cut by a statement budget and reported.',
+   text='A second interactive party is simulated: at every debugger stop a simulated user draws the next command (step/next/finish/continue and abbreviations, empty line = repeat, print of a constant expression and of a call of a program function, vars, backtrace, unknown command, end of input) from the choice list, through (A) the real fast/debug.Debugger reading a simulated command stream and writing to a captured Stdout or (B) a direct fast.Debugger implementation. The statement seam records every executed statement (call depth, line) of the same run as ground truth; a stop-rule model replays stops, commands and statements in order and must agree; the program\'s results must equal the undebugged run and the native twin (transparency); runaway sessions are cut by a statement budget and reported.',
    note='One fixed program template with seeded behaviour. After end of input on the command stream the debugger continues (documented). Trusted: the Fileset line mapping used to match stops to statements.',
    technique='deterministic simulation: simulated interactive user on the debugger command stream + statement-level ground truth + stop-rule reference model'),
  'C26': dict(level='exploration', design='3.10',
    text='Seeded streams assembled from statement templates whose token structure and statement boundaries are known by construction, delivered through a simulated byte source (bufio over 1..7-byte fragments with zero-byte reads, a one-line-per-call line source, whole buffer in one read) with injected faults (EOF at an arbitrary byte biased into strings/comments/open brackets, non-EOF read error at an arbitrary byte followed or not by more data, missing final newline, CRLF, #! first line). Oracles: chunks concatenate to exactly the bytes delivered (with #! -> //), every chunk ends at a constructed statement boundary (never inside a token or open bracket, never cutting a continued statement), every chunk parses on its own, the chunking is identical under every delivery schedule, and the EOF error kind tells whether brackets were open.',
-   note='Templates are a fixed alphabet (about 75 statement shapes, including lines longer than the buffer of bufio); standard-library files are not used. A line source returning several lines per call is outside the Readline contract both real implementations follow and is not simulated. After an injected non-EOF error nothing is required of the rest of the stream.',
+   note='Templates are a fixed alphabet (about 95 statement shapes, including lines longer than the buffer of bufio, the character after a division operator, comments ending in **/, tabs in literals, trailing selector dots, line-ending keywords glued to brackets); standard-library files are not used. A line source returning several lines per call is outside the Readline contract both real implementations follow and is not simulated. After an injected non-EOF error nothing is required of the rest of the stream.',
    technique='deterministic simulation: simulated byte/line source with seeded fragmentation and injected EOF/read errors + boundaries known by construction'),
  'C27': dict(level='exploration', design='3.11',
    text='Partial: decides clause 1 (positions across chunks). Seeded multi-chunk sources (declarations with continuation lines, multi-line raw strings, groups, separated by seeded runs of blank lines and comments) optionally preceded by a package clause and by chunks that fail (compile error, syntax error, run-time panic), carry one marker at a constructed line:column - undefined identifier (compile error), invalid token (parse error), or a "break" statement reached under the real debugger (stop position); one run in four of the EvalReader / EvalFile entries first abandons another source midway on the same interpreter. They are evaluated through EvalReader over a fragmenting byte source, EvalFile on a real file, and the REPL loop over a line source; the file:line:col in the captured report must equal the constructed position under every delivery and any number of preceding chunks.',
